@@ -152,6 +152,11 @@ def pop_propagator(triggered_propagators: NDArray, previous_prop_idx: int) -> in
         if triggered_propagators[prop_idx] and prop_idx != previous_prop_idx:
             triggered_propagators[prop_idx] = False
             return prop_idx
+    # the previous propagator is only reconsidered when nothing else is triggered:
+    # it has changed one of its own variables and may not be idempotent
+    if previous_prop_idx != -1 and triggered_propagators[previous_prop_idx]:
+        triggered_propagators[previous_prop_idx] = False
+        return previous_prop_idx
     return -1
 
 
